@@ -74,6 +74,18 @@ where
     let mut tags = Vec::new();
     let mut ncheck = 0usize;
     let mut checkpoint = |eg: &EGraph<Main, N>, tracked: &[AppliedId], tags: &mut Vec<String>, checkpoints: &mut Vec<(String, Vec<String>, Vec<String>)>| {
+        // first of all, before anything canonicalises (and thereby path-compresses): the datum read through every handle
+        // ever returned, old ids of merged classes included, must be the datum of the class it belongs to
+        let raw: Vec<String> = tracked.iter().map(|t| show(eg.analysis_data(t.id))).collect();
+        for (t, r) in tracked.iter().zip(raw.iter()) {
+            let leader = eg.find_applied_id(t).id;
+            if *r != show(eg.analysis_data(leader)) {
+                let t = "viol:datum-read-through-old-id-is-stale".to_string();
+                if !tags.contains(&t) {
+                    tags.push(t);
+                }
+            }
+        }
         let snap = eg.verif_snapshot(show).trim_end().replace('\n', "~");
         let mut qs = vec![format!("fix {kind}")];
         let mut outs = vec!["1".to_string()];
@@ -219,9 +231,89 @@ fn gen_chain(rng: &mut Rng) -> Vec<Op> {
     ops
 }
 
+
+/// cascading unions: one union of two leaves makes two pairs of parents congruent, so that a class is merged and the class
+/// it was merged into is merged again within the same rebuild, while a parent of the first class is still waiting to be
+/// re-analysed; the class at the end of the cascade has a better datum than the ones merged into it
+fn gen_cascade(rng: &mut Rng) -> Vec<Op> {
+    let sym = |s: &str| ATerm { v: 16, fields: vec![CField::Lit(s.into())], children: vec![] };
+    let num = |s: &str| ATerm { v: 15, fields: vec![CField::Lit(s.into())], children: vec![] };
+    let h = |a: ATerm| ATerm { v: 13, fields: vec![CField::App], children: vec![a] };
+    let bin = |v: usize, a: ATerm, b: ATerm| ATerm { v, fields: vec![CField::App, CField::App], children: vec![a, b] };
+    let x = sym("a");
+    let y = sym("b");
+    // two different unary operators (binders whose bound slot is not used), so that the classes share no other child
+    let g = |t: ATerm| ATerm { v: 0, fields: vec![CField::Bind(10, Box::new(CField::App))], children: vec![t] };
+    let k = |t: ATerm| ATerm { v: 6, fields: vec![CField::Bind(10, Box::new(CField::App))], children: vec![t] };
+    // parents: the class with more parents survives a merge, so a (1 parent) goes into b (3) and b into c (4-5)
+    let par = |i: usize, t: ATerm| -> ATerm {
+        match i {
+            0 => h(t),
+            1 => bin(5, t, num("2")),
+            2 => bin(5, t, num("3")),
+            3 => bin(4, t, num("4")),
+            _ => bin(14, num("5"), t),
+        }
+    };
+    let z = if rng.chance(1, 2) { num("1") } else { sym("c") };
+    let mut terms: Vec<ATerm> = Vec::new();
+    let mut unions: Vec<(usize, usize)> = Vec::new();
+    // padding first: shifts class ids and with them the order of the worklist
+    for i in 0..rng.below(5) {
+        terms.push(num(&format!("{}", 7 + i)));
+    }
+    let base = terms.len();
+    terms.push(g(x.clone())); // base + 0
+    terms.push(k(x.clone())); // base + 1
+    unions.push((base, base + 1)); // a = {g(x), k(x)}
+    terms.push(par(0, g(x.clone()))); // the parent whose datum must follow
+    terms.push(g(y.clone())); // b
+    let nb = rng.range(2, 3);
+    for i in 1..=nb {
+        terms.push(par(i, g(y.clone())));
+    }
+    let ky = terms.len();
+    terms.push(k(y.clone())); // c
+    terms.push(z);
+    unions.push((ky, ky + 1)); // c = {k(y), z}: the best datum sits at the end of the cascade
+    for i in 0..=nb + 1 {
+        terms.push(par(i, k(y.clone())));
+    }
+    let xi = terms.len();
+    terms.push(x);
+    terms.push(y);
+    let mut ops: Vec<Op> = Vec::new();
+    // insert and union in program order (the unions refer to positions in `terms`)
+    let mut pending = unions;
+    for (i, t) in terms.into_iter().enumerate() {
+        ops.push(Op::Add(t));
+        pending.retain(|(a, b)| {
+            if *a.max(b) <= i {
+                ops.push(Op::Union(*a, *b));
+                false
+            } else {
+                true
+            }
+        });
+    }
+    if rng.chance(1, 4) {
+        ops.push(Op::Union(xi + 1, xi));
+    } else {
+        ops.push(Op::Union(xi, xi + 1)); // x = y: g(x) = g(y) and k(x) = k(y) by congruence, hence a = b = c
+    }
+    ops.push(Op::Query);
+    ops
+}
+
 pub fn run(ctx: &mut Ctx) {
     for _ in 0..ctx.count {
         let mut rng = ctx.rng.fork();
+        if rng.chance(1, 3) {
+            let ops = gen_cascade(&mut rng);
+            let desc = enc_ops(&ops);
+            emit_kind::<MinSize>(ctx, &ops, &[], 0, |d| d.to_string(), "minsize", &desc);
+            emit_kind::<MinDepth>(ctx, &ops, &[], 0, |d| d.to_string(), "mindepth", &desc);
+        }
         if rng.chance(1, 3) {
             let ops = gen_chain(&mut rng);
             let desc = enc_ops(&ops);
